@@ -205,6 +205,75 @@ mod proofs {
   rt2_harness!(c07_indent_shift2_1_to_2, 1, 2);
   rt2_harness!(c07_indent_shift2_2_to_1, 2, 1);
 
+  /// Re-indentation on a finite grid: the block `ab\n<from+1 spaces>c\n<from spaces>d`
+  /// extracted at column `from` and re-inserted at column `to`, (from, to) in {0,1,2}^2 given
+  /// by ONE symbolic index that is case-split, so that inside a case every size is concrete
+  /// (symbolic contents already make `split` positions symbolic: the two-line harnesses
+  /// above run out of memory).  Inside a case nothing is symbolic: this is the real code
+  /// executed by the model checker on nine concrete cases.
+  fn reindent_case(from: usize, to: usize) {
+    let mut text = [b'x'; 24];
+    let mut n = 0;
+    let mut i = 0;
+    while i < from {
+      text[n] = b' ';
+      n += 1;
+      i += 1;
+    }
+    let start = n;
+    text[n] = b'a';
+    text[n + 1] = b'b';
+    text[n + 2] = b'\n';
+    n += 3;
+    let mut i = 0;
+    while i < from + 1 {
+      text[n] = b' ';
+      n += 1;
+      i += 1;
+    }
+    text[n] = b'c';
+    text[n + 1] = b'\n';
+    n += 2;
+    let mut i = 0;
+    while i < from {
+      text[n] = b' ';
+      n += 1;
+      i += 1;
+    }
+    text[n] = b'd';
+    n += 1;
+    let src = unsafe { String::from_utf8_unchecked(text[..n].to_vec()) };
+    let ex = extract_with_deindent(&src, start..n);
+    let got = indent_lines::<String>(to, ex);
+    let mut want = [0u8; 32];
+    let wn = spec_shift(&text[start..n], from, to, &mut want);
+    assert!(got.len() == wn, "re-indented length");
+    let mut i = 0;
+    while i < 20 {
+      if i < wn {
+        assert!(got[i] == want[i], "continuation lines keep their relative indentation, shifted to the new column");
+      }
+      i += 1;
+    }
+    std::mem::forget(got);
+    std::mem::forget(src);
+  }
+  #[kani::proof]
+  #[kani::unwind(22)]
+  fn c07_reindent_grid() {
+    let idx: usize = kani::any();
+    kani::assume(idx < 9);
+    let mut k = 0;
+    while k < 9 {
+      if idx == k {
+        reindent_case(k / 3, k % 3);
+      }
+      k += 1;
+    }
+    kani::cover!(idx == 2);
+    kani::cover!(idx == 6);
+  }
+
   macro_rules! rt_harness {
     ($name:ident, $from:expr, $to:expr, $lens:expr, $extra:expr) => {
       #[kani::proof]
